@@ -219,6 +219,7 @@ type RunResult struct {
 	Steps, Aborts int
 	Err           error // archetype error (assertion etc.) or monitor error that ended the run
 	ErrProc       *Proc
+	ErrLabel      string // the Go label ErrProc was executing when the error arose
 	MonitorErr    bool
 	EndedIdle     bool
 }
@@ -341,7 +342,7 @@ func (s *Sched) Run(maxSteps int) RunResult {
 		}
 		finished := s.grantOnce(p)
 		if finished && p.Err != nil {
-			res.Err, res.ErrProc = p.Err, p
+			res.Err, res.ErrProc, res.ErrLabel = p.Err, p, label
 			break
 		}
 		if !p.hadEvt { // no event: cannot happen for a real label
